@@ -217,10 +217,10 @@ def _long_case(draw):
         q = draw(st.integers(max(10, p - 3), p))
         base = draw(st.sampled_from([1 << q, 1 << q, 10 ** draw(st.integers(4, 6)), 3 * (1 << (q - 2))]))
         starts.append(base * draw(st.integers(1, 3)) + draw(st.sampled_from([0, 0, -1, -1, 1, -2])))
-    # and always one run at one of the large round numbers below the length
+    # and a run at every one of the large round numbers below the length (on it, ending just before it, straddling it, after it)
     major = [v for v in (1 << 16, 1 << 17, 1 << 18, 1 << 19, 1 << 20, 1 << 21, 10 ** 5, 10 ** 6, 2 * 10 ** 6) if v < ns - 1]
-    if major:
-        starts.append(draw(st.sampled_from(major[-4:])) + draw(st.sampled_from([0, -1, -1, 1, -2])))
+    for v in major:
+        starts.append(v + draw(st.sampled_from([0, -1, -1, 1, -2])))
     for _ in range(draw(st.integers(0, 4))):
         starts.append(draw(st.integers(0, ns - 1)))
     runs = sorted({(a, draw(st.sampled_from([1, 1, 2, 3, 9]))) for a in starts if 0 <= a < ns})
